@@ -46,7 +46,7 @@ CLAIMS={
    technique="contract-based deductive verification: VCs from go/ssa, representation invariant as quantified macro over nested maps, z3/cvc5",
    design="5 (C03)"),
  "C06": dict(
-   text="For the routing layer - SnapPolygon, FromTileMatrixSet, MatrixBoundingBox, tileMatrixIDsByLevels, InsertPolygon, InsertPoint, InsertCoord, insertCoord (MustToZ never panics for level <= 32), addPointsAndSnap's own statements, SnapClosestPoints, snapClosestPoints, findIntersectingQuadrants, lineIntersects, cmpFrac, getQuadrantZs, cleanupNewVertices, AsKeys, LastElement - and for the helpers of the ring assembly kmpTable, kmpSearch, kmpSearchAll, RemoveSequences, ReverseClone, DeleteFromSliceByIndex, LastMatch, ringsAreEqual, ensureCorrectWindingOrder, outersToPolygons, every index, slice, nil-map, division, conversion, type-assertion and overflow obligation generated from the SSA is discharged and every loop has a proved variant (decreases) or is a range loop, so no panic and no endless loop originates there for any in-grid polygon, except at the explicitly modelled panic sites: SnapPolygon's panic for a vertex outside the grid (proved to be the only case, C09), cleanupNewVertices on an empty list, and whatever the ring assembly does. The ring assembly and the no-points-found guard are covered only by a bounded stand-in (labelled). Defect F9 (SnapPolygon panicked on overlapping removal ranges of the de-duplication) was found by the stand-in, repaired (RemoveSequences, now proved total) and its demonstration is re-run on every check. Known finding F6 (pixel level above 32 panics) is reported as KNOWN-FINDING.",
+   text="For the routing layer - SnapPolygon, FromTileMatrixSet, MatrixBoundingBox, tileMatrixIDsByLevels, InsertPolygon, InsertPoint, InsertCoord, insertCoord (MustToZ never panics for level <= 32), addPointsAndSnap's own statements, SnapClosestPoints, snapClosestPoints, findIntersectingQuadrants, lineIntersects, cmpFrac, getQuadrantZs, cleanupNewVertices, AsKeys, LastElement - and for the helpers of the ring assembly kmpTable, kmpSearch, kmpSearchAll, RemoveSequences, ReverseClone, DeleteFromSliceByIndex, LastMatch, ringsAreEqual, ensureCorrectWindingOrder, outersToPolygons, every index, slice, nil-map, division, conversion, type-assertion and overflow obligation generated from the SSA is discharged and every loop has a proved variant (decreases) or is a range loop, so no panic and no endless loop originates there for any in-grid polygon, except at the explicitly modelled panic sites: SnapPolygon's panic for a vertex outside the grid (proved to be the only case, C09) and whatever the bodies of the ring assembly do (bounded stand-ins only, labelled). The guard panicNoPointsFoundForVertices is proved unreachable: InsertPolygon is proved to leave the pixel of every vertex stored on every level (insertCoord stores it per level and never removes anything), the descent is proved complete, the start of an edge is a witness for 'the edge meets its pixel', so every requested level gets a non-empty list (obligation snap.addPointsAndSnap.nopanic.cleanupNewVertices). Defect F9 (SnapPolygon panicked on overlapping removal ranges of the de-duplication) was found by the stand-in, repaired (RemoveSequences, now proved total) and its demonstration is re-run on every check. Known finding F6 (pixel level above 32 panics) is reported as KNOWN-FINDING.",
    note="Trusted: as for C08. The bodies of kmpDeduplicate, splitRing, dedupeInnersOuters, matchInnersToPolygons are trusted leaves whose panic is treated as possible by callers; they are not under contract (bounded stand-ins only). No complexity bound is proved.",
    technique="contract-based deductive verification (safety and termination obligations from go/ssa, z3/cvc5) + bounded stand-in for the ring assembly (labelled bounded) + demonstration of the recorded defect",
    design="5 (C06)"),
